@@ -120,9 +120,7 @@ func c11Programs(depth int) []*Spec {
 		}
 	}
 	rec = func(hist []int) {
-		if len(hist) > 0 {
-			emit(hist)
-		}
+		emit(hist) // including the empty history: a bar nobody touches, ended only by the cancellation
 		if len(hist) == depth {
 			return
 		}
@@ -131,6 +129,26 @@ func c11Programs(depth int) []*Spec {
 		}
 	}
 	rec(nil)
+	// two mutator threads racing: an Abort against the update that completes the bar, with an observer; whichever
+	// wins, the state an observer has seen must stick
+	for _, total := range []int64{0, 2} {
+		for _, rf := range []string{"none", "auto"} {
+			for ci, comp := range []Op{{K: "incr", B: 0, N: max64(total, 1)}, {K: "settotal", B: 0, N: -1, F: true}, {K: "trigger", B: 0}, {K: "setcur", B: 0, N: max64(total, 1)}} {
+				for _, drop := range []bool{false, true} {
+					if total == 2 && (comp.K == "settotal" || comp.K == "trigger") {
+						continue
+					}
+					sp := &Spec{Name: fmt.Sprintf("c11-race-t%d-%d-%v", total, ci, drop), Refresh: rf, Q: -1}
+					sp.Bars = []BarSpec{{Total: total}, {Total: 9}}
+					sp.Main = []Op{{K: "add", B: 0}, {K: "add", B: 1}}
+					sp.Clients = [][]Op{{comp}, {{K: "abort", B: 0, F: drop}}, {{K: "get", B: 0}, {K: "get", B: 0}, {K: "get", B: 0}}}
+					sp.Main2 = []Op{{K: "join"}, {K: "get", B: 0}, {K: "cancel"}}
+					sp.Late = []Op{{K: "get", B: 0}}
+					out = append(out, sp)
+				}
+			}
+		}
+	}
 	return out
 }
 
@@ -155,6 +173,9 @@ func init() {
 			for _, sp := range c11Programs(depth) {
 				b := bound
 				if tier == "thorough" && strings.Count(sp.Name, ".") <= 1 {
+					b = 2
+				}
+				if strings.HasPrefix(sp.Name, "c11-race") && tier == "thorough" {
 					b = 2
 				}
 				items = append(items, specItems("C11", sp, b, []int{mcrt.StratFIFO, mcrt.StratNewest}, nil, c11Oracle)...)
